@@ -158,11 +158,20 @@ class Env:
                 else ("pre%d" % self.out_pre if self.out_pre else "-"))
 
 
-def env_vars(seed):
+NON_ASCII_NAME_STYLES = (3, 6)
+
+
+def env_vars(seed, names=0):
     """Environment variables of the simulated process (terminal size, TERM, TMPDIR, HOME, TZ,
-    locale): nothing an image may depend on."""
+    locale): nothing an image may depend on.  A text layer that cannot encode the file names
+    the tool echoes (veftopng prints its output name) is a different matter - the unchanged tool
+    fails there - so non-ASCII file names keep a UTF-8 text layer."""
     if not seed:
         return {}
+    if names % len(NAME_STYLES) in NON_ASCII_NAME_STYLES:
+        d = env_vars(seed)
+        d["PYTHONIOENCODING"] = "utf-8"
+        return d
     import random
     r = random.Random(seed)
     return {"COLUMNS": str(r.choice((1, 4, 5, 20, 80, 400))), "LINES": str(r.choice((1, 3, 24, 200))),
@@ -254,9 +263,9 @@ def simulate(tool, opts, data: bytes, env: Env, damaged=(), boundaries=(), budge
         redirect = (_r0.Random(env.in_seed).randbytes(k) + bytes(data), k)
     w = World(stdin_data=data if use_stdin else None, stdin_file=redirect, stdin_sched=sin, stdout_sched=sout,
               stdin_damaged=damaged if use_stdin else (), vcwd=VCWD_OF_PROCESS,
-              stdout_unbuffered=env.unbuf, environ=env_vars(env.envseed),
+              stdout_unbuffered=env.unbuf, environ=env_vars(env.envseed, env.names),
               tty=TTY_OF_PROCESS or bool(env.envseed and env.envseed % 5 == 0),
-              stdout_encoding=env_vars(env.envseed).get("PYTHONIOENCODING", "utf-8"))
+              stdout_encoding=env_vars(env.envseed, env.names).get("PYTHONIOENCODING", "utf-8"))
     with w:
         if env.in_kind == "fifo":
             w.fs.fifos[w._vpath(inp, writing=True)] = (bytes(data), sin, list(damaged))
